@@ -232,6 +232,9 @@ func abuttingBlockComment(src []byte) bool {
 	return false
 }
 
+// GenericAlias is the input-only predicate of open finding KF-3.
+func GenericAlias(src []byte) bool { return genericAlias(src) }
+
 func genericAlias(src []byte) bool {
 	if !strings.Contains(string(src), "] =") {
 		return false
